@@ -107,6 +107,20 @@ def verify(ix, model, out, tag):
             got = _keys(s, [h.docnum for h in s.search(wq.Not(q), limit=None)])
             if got != nexp:
                 out.fail("c07.not_term", [tag, word, got, nexp])
+        # conjunctions and phrases step their clauses with skip_to(): a deleted document must stay invisible there too
+        for w1, w2 in (("a", "b"), ("ab", "a"), ("b", "ba"), ("abc", "ab")):
+            exp = sorted(d["k"] for d in docs if w1 in (d.get("t") or []) and w2 in (d.get("t") or []))
+            q = wq.And([wq.Term("t", w1), wq.Term("t", w2)])
+            for name, res in (("scored", s.search(q, limit=None)), ("limit2", s.search(q, limit=2)),
+                              ("require", s.search(wq.Require(wq.Term("t", w1), wq.Term("t", w2)), limit=None))):
+                got = _keys(s, res.docs())
+                if got != exp:
+                    out.fail("c07.and_search:" + name, [tag, w1, w2, got, exp])
+            toks = lambda d: d.get("t") or []
+            exp = sorted(d["k"] for d in docs if any(toks(d)[i] == w1 and toks(d)[i + 1] == w2 for i in range(len(toks(d)) - 1)))
+            got = _keys(s, s.search(wq.Phrase("t", [w1, w2]), limit=None).docs())
+            if got != exp:
+                out.fail("c07.phrase_search", [tag, w1, w2, got, exp])
         got = _keys(s, s.docs_for_query(wq.Every("t")))
         exp = sorted(d["k"] for d in docs if d.get("t"))
         if got != exp:
